@@ -82,6 +82,15 @@ extern int   WS[NW + 1];              /* state of the cell: S_RAW = no element o
 #define RAW(i)  (WS[i] == S_RAW)
 /* ---- watched block ------------------------------------------------------------------------- */
 extern Elem *WB; extern int WBL; extern unsigned long WBN; extern int WBA;
+/* ---- caller's ranges (C15) --------------------------------------------------------------------
+ * A single-pass stream is a range of live source cells [.., S_END) with a current position S_CUR
+ * (advanced only by ++ on a current iterator) and a flag "the current position was already dereferenced".
+ * A forward range is [.., F_END): it may be re-read, never walked past F_END. */
+extern const Elem *S_CUR, *S_END; extern int S_DEREF_DONE;
+extern const Elem *F_END;
+#ifndef ITER_MAY_THROW
+#define ITER_MAY_THROW 1
+#endif
 /* ---- meters --------------------------------------------------------------------------------- */
 extern unsigned long alloc_calls, dealloc_calls, gen_calls;
 extern unsigned int  used_kinds;
